@@ -24,6 +24,8 @@ Definition maprange_classified : list (bytes * bytes * bytes) := [
   (b#"ExtendsNode.Render", b#"ctx.blocks", b#"copies a map into a map under the same keys");
   (b#"ExtendsNode.Render", b#"ctx.blockChain", b#"copies a map into a map under the same keys, each slice copied on its own");
   (b#"IncludeNode.Render", b#"ctx.context", b#"copies the variables into a fresh map under the same names");
+  (b#"IncludeNode.Render", b#"c.context", b#"sandboxed include without only: the contexts are walked in a fixed order, nearest first (for c := ctx; c != nil; c = c.parent); within one context every name occurs once and is copied only when not yet present, so the order inside one map is immaterial");
+  (b#"MacroNode.CallMacro", b#"n.siblings", b#"copies the macro table of the defining template into the macro context under the same names");
   (b#"IncludeNode.Render", b#"n.variables", b#"every value expression is evaluated in the includer's context, which the loop does not change, and stored under its own name in the child context: order immaterial on success; on failure the first failing entry in map order is reported (error text is not an observable)");
   (b#"ImportNode.Render", b#"importCtx.macros", b#"copies a map into a map under the same keys");
   (b#"NewRenderContext", b#"ctx.context", b#"clears a pooled map");
